@@ -96,8 +96,11 @@ def probe_monitor(cfg, obs):
 def run_history(cfg, hist, probe=True):
     L = letters_for(cfg)
     s = Session(cfg)
+    s.hung = []
     for name in hist:
-        apply(s, L, name)
+        o = apply(s, L, name)
+        if o is not None and o.result[0] == 'hang':
+            s.hung.append(name)       # an attempt of an earlier request never expired
     f = s.fp()
     if not probe:
         return s, f, None
@@ -112,8 +115,8 @@ def shrink_hist(cfg, hist, clause):
         changed = False
         for i in range(len(cur)):
             t = cur[:i] + cur[i + 1:]
-            _, _, obs = run_history(cfg, t)
-            if any(c == clause for c, _ in probe_monitor(cfg, obs)):
+            s_, _, obs = run_history(cfg, t)
+            if any(c == clause for c, _ in probe_monitor(cfg, obs) + ([('every-attempt-expires', '')] if s_.hung else [])):
                 cur = t
                 changed = True
                 break
@@ -134,6 +137,9 @@ def job(j):
         s, f, obs = run_history(cfg, hist)
         st.executions += 1
         mon = probe_monitor(cfg, obs)
+        if s.hung:
+            mon = mon + [('every-attempt-expires', f'request {s.hung[0]!r} of the history never ended: an attempt without a valid answer must '
+                                                   f'end one timeout after its transmission')]
         oc = (obs.result[:2], len(obs.txs))
         st.outcomes[oc] = st.outcomes.get(oc, 0) + 1
         for clause, cause in mon:
@@ -159,7 +165,8 @@ def job(j):
         cell = f"{cfg['transport']}/ka={int(cfg['ka'])}" + ('/probe-in-cancelled-task' if cfg.get('probe_in_cancelled_task') else '') + \
             ('/same-command-object' if cfg.get('same_command') else '')
         key = f"{clause}/{cell}/after:{'+'.join(sorted(set(x.split('-after-')[0] for x in mn))) or 'nothing'}"
-        if not any(c == clause for c, _ in probe_monitor(cfg, o2)):
+        s2, _, _ = run_history(cfg, mn)
+        if not any(c == clause for c, _ in probe_monitor(cfg, o2) + ([('every-attempt-expires', '')] if s2.hung else [])):
             key = f"{clause}/{cell}/order-dependent"
             cause = f'{cause}; ' + 'failed during exploration but not on a fresh replay: the outcome depends on earlier executions in the same process (state outside the objects under test leaks between executions)'
         out.append(dict(key=key, clause=clause, n=len(lst), replay=dict(part='A', cfg=cfg, history=mn),
